@@ -624,10 +624,13 @@ def direct(rng, tier, focus=()):
     for d in [x for f in focus if isinstance(f, dict) for x in (f['bundle'] if 'bundle' in f else [f])]:
         if isinstance(d, dict) and 'ops' in d:
             hh = dict(d)
-            if hh.get('pv') != hh.get('dflt') and hh['cls'] not in BINARY:
-                hh['pv'] = hh.get('dflt')
+            # the predicate speaks about objects that start consistent (present value = relinquish default)
             if hh['cls'] in BINARY and hh.get('pv') is None:
                 hh['pv'] = 0
+            if hh['cls'] in BINARY or hh.get('pv') is not None:
+                hh['dflt'] = hh['pv']
+            else:
+                hh['pv'] = hh.get('dflt')
             go(hh)
     # exhaustive sequences over 4 priorities x 3 values x {write, relinquish}; work units run in parallel processes
     LMAX = 4 if big else 3
